@@ -839,7 +839,9 @@ def check_rendering(ctx, lib):
         for_range = []
         term_mentions(ts, lambda x: for_range.append(x) if x[0] == "agg" and "ops::Range" in x[1] else None)
         return all(x[1] == "std::ops::Range::Range" and x[2] == (fs({("const", 0)}), fs({P1})) for x in for_range)
-    ok = len(pads) == 1 and len(marks) == 1 and plain_count(pads[0][1]) and c.dominates(pads[0][0], marks[0][0]) and \
+    # no case analysis in the helper: what it appends does not depend on what the buffer already holds
+    straight = not any(c.blocks[i]["term"]["k"] == "switch" for i in c.reachable())
+    ok = len(pads) == 1 and len(marks) == 1 and plain_count(pads[0][1]) and c.dominates(pads[0][0], marks[0][0]) and straight and \
         all(x[0] == "const" and x[1].count("^") == 1 for x in marks[0][1])
     ctx.check(ok, rule, "caret-line", "the caret line is `column` blanks (the count as stored, from 0, end excluded) followed by one '^'", c.span)
 
@@ -950,6 +952,7 @@ def check_rendering(ctx, lib):
                     if bound == next(iter(ds)) and all(edge_dominates(b, (sb2, be2[edge]), s) for s in outer) and \
                             blocks_separate(b, set(outer), rets[0], start=be2[edge]):
                         good = True
+                        fallback_edge = (sb2, be2[edge])
             if not good:
                 why = "the caret after the scan is guarded neither by a `no caret placed yet` flag nor by `final newline count < self.line + 1`"
         else:
@@ -964,8 +967,21 @@ def check_rendering(ctx, lib):
             good = good and all(any(b.dominates(f, s) or b.dominates(s, f) for f in sets) for s in inner)
             good = good and all(any(b.dominates(f, s) or b.dominates(s, f) for s in inner) for f in sets)
             good = good and blocks_separate(b, set(outer), rets[0], start=be2[1])
+            fallback_edge = (sb2, be2[1])
             if not good:
                 why = "the `caret placed` flag is not set exactly where the inner caret is placed, or the fallback caret can be skipped"
+    if why is None:
+        # (d) the fallback caret goes on a line of its own: the error's line was not ended by a newline of the expression, so one
+        # is appended first — unconditionally, between the guard and the caret
+        def is_break(t):
+            if t["callee"] == "std::string::String::push":
+                return any(x == ("const", 10) for x in o.of_operand(t["args"][1]))
+            if t["callee"] == "std::string::String::push_str":
+                return any(x[0] == "const" and x[1] in ('"\\n"',) for x in o.of_operand(t["args"][1]))
+            return False
+        brks = [blk for blk, t in b.calls() if is_break(t) and edge_dominates(b, fallback_edge, blk)]
+        if not (brks and all(any(b.dominates(k, s) for k in brks) for s in outer)):
+            why = "the caret after the scan is not preceded by a line break of its own (pushed unconditionally between the guard and the caret)"
     ctx.check(why is None, rule, "caret-once", "exactly one caret line: inside the scan right after the newline that ends line self.line "
               "(an equality on the running newline count), otherwise once after the scan" + (f" — {why}" if why else ""), b.span)
     # ---- what is written
